@@ -4,6 +4,7 @@ import MaestroVerif.Model.Sched
 import MaestroVerif.Model.Csv
 import MaestroVerif.Model.Lock
 import MaestroVerif.Model.Expand
+import MaestroVerif.Model.Launcher
 open MaestroVerif
 
 /-! Line-protocol driver: one operation per input line, one canonical answer line per operation. -/
@@ -319,6 +320,52 @@ def step (st : St) (toks : List String) : St × String :=
   | _ => (st, "bad-op")
 end ExpDrv
 
+namespace LaunchDrv
+open Launcher
+
+def parseVal (s : String) : Val :=
+  match s.toList with
+  | 'n' :: _ => .none
+  | 'i' :: '-' :: r => .int (-(String.ofList r).toNat!)
+  | 'i' :: r => .int (String.ofList r).toNat!
+  | 'b' :: 'T' :: _ => .bool true
+  | 'b' :: _ => .bool false
+  | 's' :: r => .str (unhex (String.ofList r))
+  | _ => .none
+
+def parseDict (s : String) : Dict :=
+  if s.isEmpty then [] else (s.splitOn ",").filterMap fun p =>
+    match p.splitOn ":" with
+    | [a, b] => some (unhex a, parseVal b)
+    | _ => none
+
+def fmtErr : PErr → String
+  | .valueError => "RAISE:ValueError" | .typeError => "RAISE:TypeError"
+  | .runtimeError => "RAISE:RuntimeError" | .attributeError => "RAISE:AttributeError"
+  | .keyError => "RAISE:KeyError" | .zeroDivision => "RAISE:ZeroDivisionError"
+
+def parseAdapter (s : String) : Adapter :=
+  if s == "slurm" then .slurm else if s == "lsf" then .lsf else if s == "flux" then .flux else .localA
+
+def step (toks : List String) : String :=
+  match toks with
+  | "launch.script" :: rest =>
+    let fargs := (ExpDrv.pairs (kvOf rest "fargs"))
+    match mkCtx (parseAdapter (kvOf rest "adapter")) (parseDict (kvOf rest "kw")) fargs
+        (parseVal (kvOf rest "envuri")) (unhex (kvOf rest "fver")) with
+    | .error e => "INIT-" ++ fmtErr e
+    | .ok cx =>
+      match script cx (unhex (kvOf rest "name")) (unhex (kvOf rest "desc")) (parseDict (kvOf rest "run")) with
+      | .error e => fmtErr e
+      | .ok sc =>
+        let r := match sc.restart with
+          | some t => hex t
+          | none => "X"
+        s!"ok sched={if sc.scheduled then 1 else 0} main={hex sc.main} restart={r}"
+  | ["launch.allocs", s] => ";".intercalate ((findAllocs ((unhex s).length + 1) (unhex s)).map hex)
+  | _ => "bad-op"
+end LaunchDrv
+
 structure DrvState where
   dag : Dag.Dag := Dag.empty
   exec : Option ExecDrv.St := none
@@ -337,6 +384,7 @@ def stepLine (st : DrvState) (line : String) : DrvState × String :=
       ({ st with exec := r.1 }, r.2)
     else if t.startsWith "sched." then (st, SchedDrv.step toks)
     else if t.startsWith "csv." || t.startsWith "lock." then (st, CsvDrv.step toks)
+    else if t.startsWith "launch." then (st, LaunchDrv.step toks)
     else if t.startsWith "exp." || t.startsWith "subst." then
       let r := ExpDrv.step st.exp toks
       ({ st with exp := r.1 }, r.2)
